@@ -25,6 +25,12 @@ func x1Scenarios(prop, tier string) []*Scenario {
 		return c13Scenarios(tier)
 	case "C11":
 		return c11Scenarios(tier)
+	case "C06":
+		return c06Scenarios(tier)
+	case "C05":
+		return c05Scenarios(tier)
+	case "C15":
+		return c15Scenarios(tier)
 	}
 	return nil
 }
@@ -427,6 +433,128 @@ func heavyBound(tier string) *int {
 		return intp(2)
 	}
 	return intp(1)
+}
+
+// c06Scenarios: the order of starts when completions, failures to start, cancels and new requests race
+func c06Scenarios(tier string) []*Scenario {
+	chk := func(w *World, x *Exec) []Violation { return monC06(buildFacts(w.Log, w.dump())) }
+	S := XEvent{Kind: "S", P: "p"}
+	mk := func(name, desc string, cfg PipeCfg, prefix []XEvent, acc int, drivers ...[]Op) *Scenario {
+		return &Scenario{Name: name, Desc: desc, Opts: func() WorldOpts { return WorldOpts{Defs: defsOf(cfg)} }, Prefix: prefix,
+			Setup: func(w *World) {
+				w.Accepted = acc
+				for _, d := range drivers {
+					w.SpawnDriver(d...)
+				}
+			}, Check: chk, NoTick: cfg.Delay == 0, Bound: func() *int {
+				if len(drivers) > 1 || cfg.Conc > 1 {
+					return heavyBound(tier)
+				}
+				return nil
+			}()}
+	}
+	one := PipeCfg{Conc: 1, QL: -1, Graph: graphOne}
+	two := PipeCfg{Conc: 2, QL: -1, Graph: graphOne}
+	return []*Scenario{
+		mk("completion-vs-schedule/conc1", "job 1 runs, jobs 2 and 3 wait; job 1 completes while a new request arrives", one, []XEvent{S, S, S}, 3, []Op{{Kind: "S", Pipeline: "p"}}),
+		mk("completion-vs-schedule/conc2", "jobs 1,2 run, jobs 3,4 wait; completions race with a new request", two, []XEvent{S, S, S, S}, 4, []Op{{Kind: "S", Pipeline: "p"}}),
+		mk("completion-vs-cancel/conc1", "job 1 runs, jobs 2,3,4 wait; cancel of job 2 races with the completion of job 1", one, []XEvent{S, S, S, S}, 4, []Op{{Kind: "C", Job: 2}}),
+		mk("bad-head-vs-schedule/conc1", "job 1 runs, job 2 (cannot start) and jobs 3,4 wait; completion races with a new request", one, []XEvent{S, {Kind: "Sbad", P: "p"}, S, S}, 4, []Op{{Kind: "S", Pipeline: "p"}}),
+		mk("delayed/conc1", "three delayed jobs; timers, a cancel and a new request race", PipeCfg{Conc: 1, QL: -1, Graph: graphOne, Delay: dly}, []XEvent{S, S, S}, 3, []Op{{Kind: "C", Job: 1}}, []Op{{Kind: "S", Pipeline: "p"}}),
+	}
+}
+
+// c05Scenarios: concurrent schedule requests against the admission limits
+func c05Scenarios(tier string) []*Scenario {
+	chk := func(w *World, x *Exec) []Violation {
+		f := buildFacts(w.Log, w.dump())
+		var vs []Violation
+		for _, di := range f.Dumps {
+			vs = append(vs, monC05(f, nil, f.Log[di].Dump, XEvent{}, nil)...)
+		}
+		vs = append(vs, monC01(f)...)
+		// the number of accepted requests is bounded by slots + queue slots
+		return dedupV(vs)
+	}
+	var scs []*Scenario
+	for _, ql := range []int{0, 1} {
+		for _, n := range []int{2, 3} {
+			ql, n := ql, n
+			if n == 3 && tier != "thorough" && ql == 1 {
+				continue
+			}
+			cfg := PipeCfg{Conc: 1, QL: ql, Graph: graphOne}
+			sc := &Scenario{Name: fmt.Sprintf("concurrent-schedules/ql=%d/n=%d", ql, n), Desc: "n clients schedule the same pipeline at once (concurrency 1)",
+				Opts: func() WorldOpts { return WorldOpts{Defs: defsOf(cfg)} },
+				Setup: func(w *World) {
+					for i := 0; i < n; i++ {
+						w.SpawnDriver(Op{Kind: "S", Pipeline: "p"})
+					}
+				}, Check: chk, NoTick: true}
+			if n == 3 {
+				sc.Bound = heavyBound(tier)
+			}
+			scs = append(scs, sc)
+		}
+	}
+	rep := PipeCfg{Conc: 1, QL: 1, Replace: true, Graph: graphOne}
+	scs = append(scs, &Scenario{Name: "concurrent-schedules/replace", Desc: "two clients schedule a replace pipeline while one job runs and one waits",
+		Opts: func() WorldOpts { return WorldOpts{Defs: defsOf(rep)} }, Prefix: []XEvent{{Kind: "S", P: "p"}, {Kind: "S", P: "p"}},
+		Setup: func(w *World) {
+			w.Accepted = 2
+			w.SpawnDriver(Op{Kind: "S", Pipeline: "p"})
+			w.SpawnDriver(Op{Kind: "S", Pipeline: "p"})
+		}, Check: chk, NoTick: true})
+	return scs
+}
+
+// c15Scenarios: the task order of the report (static, no execution needed beyond one default run)
+func c15Scenarios(tier string) []*Scenario {
+	maxN := 3
+	if tier == "thorough" {
+		maxN = 4
+	}
+	var scs []*Scenario
+	for n := 1; n <= maxN; n++ {
+		n := n
+		scs = append(scs, &Scenario{
+			Name:  fmt.Sprintf("task-order/all-dags-on-%d-tasks", n),
+			Desc:  "reported task order: topological, identical for every permutation of the definition's task list, also with repeated depends_on entries",
+			Opts:  func() WorldOpts { return WorldOpts{Defs: defsOf(PipeCfg{Conc: 1, QL: -1, Graph: graphChain})} },
+			Setup: func(w *World) { w.SpawnDriver(Op{Kind: "S", Pipeline: "p"}) },
+			Static: func() []Violation {
+				var vs []Violation
+				for _, g := range allDAGs(n) {
+					vs = append(vs, checkSortAndCycle(g)...)
+					for _, dg := range withDuplicateDeps(g) {
+						vs = append(vs, checkSortAndCycle(dg)...)
+					}
+				}
+				return dedupV(vs)
+			},
+			Check: func(w *World, x *Exec) []Violation {
+				// tasks of the running/finished job are listed after their dependencies
+				var vs []Violation
+				d := w.dump()
+				for _, j := range d.Jobs {
+					pos := map[string]int{}
+					for i, t := range j.Tasks {
+						pos[t.Name] = i
+					}
+					for _, t := range j.Tasks {
+						for _, dep := range t.Deps {
+							if pos[dep] >= pos[t.Name] {
+								vs = append(vs, Violation{Property: "C15", Rule: "task-order-topological", Norm: "task-listed-before-dependency", Msg: fmt.Sprintf("job %d lists task %s before its dependency %s", j.Idx, t.Name, dep)})
+							}
+						}
+					}
+				}
+				return vs
+			},
+			NoTick: true, Bound: intp(0),
+		})
+	}
+	return scs
 }
 
 func defsOf(cfgs ...PipeCfg) []*definitionPipelinesDef {
